@@ -28,6 +28,9 @@ func init() {
 			{ID: "C07.R7", Text: "cluster-map generations: a snapshot is newer ⇔ (epoch, rev) is lexicographically greater; configWatch installs it and reconfigures ⇔ no snapshot yet ∨ newer, only when the snapshot could be read", Run: c07r7},
 			{ID: "C07.R8", Text: "a new cluster map starts from an empty report table: reconfigure bumps the generation, then resets, then marks unassigned copies absent, then starts the observe round of the new generation; reset replaces the whole table by fresh all-zero entries for every vBucket and re-arms the first-round counter on every path", Run: c07r8},
 			{ID: "C07.R9", Text: "every vBucket and every copy is observed: every loop over a concurrent map runs to completion: the Range callback returns true on every path (frozen exception: markAbsentInstances stops at the error it returns)", Run: rangeComplete("couchbase.rollbackMitigation)")},
+			{ID: "C07.R10", Text: "a copy is left out of the minimum ⇔ the cluster map does not assign that very copy: markAbsentInstances marks copy i absent ⇔ its own lookup yields a negative index or 'invalid replica' (1..3 copies, exhaustive); any other lookup error stops and is reported", Run: absentMarks},
+			{ID: "C07.R11", Text: "no lost wake-up on the way to the observer: dispatchPersistSeqNo forwards every report to observers[vbID].SetPersistSeqNo under no condition but 'the stream has that observer', and keeps no state of its own", Run: dispatchUnconditional},
+			{ID: "C07.R12", Text: "the gate waits ⇔ a threshold will come: Open starts the mitigation component ⇔ ¬Disabled ∧ ¬IsEphemeral() and otherwise switches the very configuration flag the gate reads; IsEphemeral ⇔ bucketType = \"ephemeral\"", Run: gateSourceAgrees},
 			{ID: "C07.R6", Text: "close releases without delivering: observer.Close sets closed; listener called ⇔ ¬closed", Run: c07r6},
 		},
 	})
